@@ -839,7 +839,7 @@ func ruleQueryPairwise(r *core.Reporter) {
 			}
 		}
 	}
-	r.Floor("unescape sites", n, 2)
+	r.Floor("unescape sites", n, 1)
 }
 
 // classifyPiece follows a string value back to where it was cut out of the raw query: fromSplit when every
